@@ -201,14 +201,18 @@ pub fn apply(w: &mut World, op: &FuOp) -> Outcome {
         FuOp::SetFarmFee { u, denom, amt } => w.exec(&user(w, *u), &fma, &upd(Some(coin(*amt, denom)), None), &[]),
         FuOp::SetCfg { u, field, val } => {
             let mut m = (None, None, None, None, None);
+            // address fields: val is an account index (users, then pool manager, farm manager, fee collector)
+            let (mut fc, mut pmx) = (None, None);
             match field.as_str() {
                 "max_farms" => m.0 = Some(*val as u32),
                 "epoch_buffer" => m.1 = Some(*val as u32),
                 "min_unlock" => m.2 = Some(*val),
                 "max_unlock" => m.3 = Some(*val),
+                "fee_collector" => fc = Some(user(w, *val as usize).to_string()),
+                "pool_manager" => pmx = Some(user(w, *val as usize).to_string()),
                 _ => m.4 = Some(*val),
             }
-            w.exec(&user(w, *u), &fma, &fm::ExecuteMsg::UpdateConfig { fee_collector_addr: None, epoch_manager_addr: None, pool_manager_addr: None, create_farm_fee: None, max_concurrent_farms: m.0, max_farm_epoch_buffer: m.1, min_unlocking_duration: m.2, max_unlocking_duration: m.3, farm_expiration_time: m.4, emergency_unlock_penalty: None }, &[])
+            w.exec(&user(w, *u), &fma, &fm::ExecuteMsg::UpdateConfig { fee_collector_addr: fc, epoch_manager_addr: None, pool_manager_addr: pmx, create_farm_fee: None, max_concurrent_farms: m.0, max_farm_epoch_buffer: m.1, min_unlocking_duration: m.2, max_unlocking_duration: m.3, farm_expiration_time: m.4, emergency_unlock_penalty: None }, &[])
         }
     }
 }
@@ -586,6 +590,28 @@ impl FuChecker {
                 v.push(FuOp::Advance { secs: 6 * DAY });
                 v.push(FuOp::Claim { u: A, until: None });
             }
+            "F16" => {
+                // two farms on lp0 (different reward denoms), two stakers; then the owner lowers max_farm_epoch_buffer to 1
+                v.push(pos(A, 0, 1000, DAY));
+                v.push(pos(B, 0, 1000, 100 * DAY));
+                v.push(farm_op(fee, C, 0, Some(1), Some(6), ("uusdc", 5000), Some("b1")));
+                v.push(farm_op(fee, C, 0, Some(1), Some(6), ("uom", 5000), Some("b2")));
+                v.push(FuOp::SetCfg { u: OWNER, field: "epoch_buffer".into(), val: 1 });
+                v.push(FuOp::Advance { secs: DAY });
+                v.push(FuOp::Advance { secs: DAY });
+            }
+            "F17" => {
+                // F3 (A staked in lp0 and lp1), then A claims, closes the lp0 position by naming its whole amount, and closes the lp1 one
+                v = self.seed_ops("F3");
+                v.push(FuOp::Claim { u: A, until: None });
+                v.push(FuOp::ClosePos { u: A, id: "p-1".into(), partial: Some((0, 1000)) });
+                v.push(FuOp::ClosePos { u: A, id: "p-2".into(), partial: None });
+            }
+            "F18" => {
+                // F2, then the owner re-points pool_manager_addr to an unrelated account (positions on the old LP tokens keep earning)
+                v = self.seed_ops("F2");
+                v.push(FuOp::SetCfg { u: OWNER, field: "pool_manager".into(), val: C as u64 });
+            }
             "F12" => {
                 // the LP token is at its limit of concurrent farms (2) and every farm ever created had an explicit identifier
                 v.push(pos(A, 0, 1000, DAY));
@@ -695,6 +721,10 @@ pub fn enabled(c: &FuChecker, w: &World, pre: &FuObs, g: &FuGhost) -> Vec<FuOp> 
                         if a != FAlpha::RewardCore && amt > 2 {
                             ops.push(FuOp::ClosePos { u, id: p.identifier.clone(), partial: Some((li, amt - 1)) });
                         }
+                    }
+                    if matches!(a, FAlpha::Full | FAlpha::Positions) {
+                        // a small locked deposit into the OTHER pool naming this position (whose LP token is not that pool's)
+                        ops.push(FuOp::ProvideLock { u, lp: 1 - li.min(1), amount: 300, dur: p.unlocking_duration, lock_id: Some(p.identifier.clone()) });
                     }
                     if matches!(a, FAlpha::Full | FAlpha::Positions | FAlpha::Reward) {
                         // the pool manager tops up this position on behalf of its owner
@@ -896,8 +926,9 @@ pub fn enabled(c: &FuChecker, w: &World, pre: &FuObs, g: &FuGhost) -> Vec<FuOp> 
             if cf.max_concurrent_farms < 3 {
                 ops.push(FuOp::SetCfg { u: OWNER, field: "max_farms".into(), val: 3 });
             }
-            if cf.max_farm_epoch_buffer != 2 {
+            if cf.max_farm_epoch_buffer > 2 {
                 ops.push(FuOp::SetCfg { u: OWNER, field: "epoch_buffer".into(), val: 2 });
+                ops.push(FuOp::SetCfg { u: OWNER, field: "epoch_buffer".into(), val: 1 });
             }
             if cf.min_unlocking_duration == DAY {
                 ops.push(FuOp::SetCfg { u: OWNER, field: "min_unlock".into(), val: 2 * DAY });
